@@ -63,9 +63,12 @@ def gogoMapGoType (f : FieldD) : String :=
     else String.ofList (dropStar vt.toList)
   "map[" ++ scalarGoType f.mapKey ++ "]" ++ vt'
 
-def isBuiltinType (t : String) : Bool :=
+/-- the predeclared type names `Imports.isBuiltinType` knows (tied to the source by table T6: `Props.C13.C13_builtin_table`) -/
+def builtinTypeNames : List String :=
   ["bool", "string", "int", "int8", "int16", "int32", "int64", "uint", "uint8", "uint16", "uint32", "uint64", "uintptr",
-   "byte", "rune", "float32", "float64", "complex64", "complex128"].contains t
+   "byte", "rune", "float32", "float64", "complex64", "complex128"]
+
+def isBuiltinType (t : String) : Bool := builtinTypeNames.contains t
 
 /-- index of the last character of `s` that is one of `[`, `]`, `*` (`strings.LastIndexAny(s, "[]*")`) -/
 def lastModIndex (s : List Char) : Option Nat :=
